@@ -5,6 +5,7 @@ package c07
 import (
 	"encoding/xml"
 	"net/url"
+	"strings"
 	"testing"
 
 	"replay/gwtest"
@@ -77,6 +78,24 @@ func TestPaginationOverDirectoryObjectsTerminates(t *testing.T) {
 	for _, k := range []string{"a/", "a/b/", "a/b/c1", "a/b/c2", "a/b/c3"} {
 		if seen[k] != 1 {
 			t.Errorf("key %q returned %d times, want once", k, seen[k])
+		}
+	}
+}
+
+// The bookkeeping directory of a bucket is skipped when a listing comes to it from above, but a prefix that points into
+// it started the walk below the skipped directory: the part files of uploads in progress were listed as objects.
+func TestListingBelowTheBookkeepingDirectoryIsEmpty(t *testing.T) {
+	g := gwtest.Start(t, gwtest.Options{})
+	g.MustStatus(g.Put(g.RootC, "/bkt", nil, nil), 200, "create bucket")
+	r := g.Post(g.RootC, "/bkt/obj?uploads", nil, nil)
+	g.MustStatus(r, 200, "initiate upload")
+	id := string(r.Body)
+	id = id[strings.Index(id, "<UploadId>")+len("<UploadId>") : strings.Index(id, "</UploadId>")]
+	g.MustStatus(g.Put(g.RootC, "/bkt/obj?partNumber=1&uploadId="+id, []byte("part one"), nil), 200, "upload part")
+	for _, q := range []string{"?prefix=.sgwtmp/multipart/", "?list-type=2&prefix=.sgwtmp/multipart/", "?prefix=.sgwtmp/", "?delimiter=/&prefix=.sgwtmp/multipart/"} {
+		l := g.Get(g.RootC, "/bkt"+q, nil)
+		if l.Status != 200 || strings.Contains(string(l.Body), "<Key>") || strings.Contains(string(l.Body), "<CommonPrefixes>") {
+			t.Errorf("GET /bkt%s: %d %s", q, l.Status, l.Body)
 		}
 	}
 }
